@@ -185,6 +185,7 @@ def run(ctx):
         reemit.dispatch_rule(ctx, facts, cfg, 'C05.a', UR, 'decompression')
         reemit.accounting_rule(ctx, facts, cfg, 'C05.b', UR, havoc=8)
         reemit.rewrite_on_every_path_rule(ctx, facts, cfg, 'C05.b', UR, ('Compress::copy_uncompressed_name',), floor=3)
+        reemit.names_on_every_path_rule(ctx, facts, cfg, 'C05.h', UR, ('Compress::copy_uncompressed_name',), 'expanding it')
         reemit.fixed_parts_rule(ctx, facts, cfg, 'C05.b', UR)
         reemit.cursor_rule(ctx, facts, cfg, 'C05.c', [UW, 'compress::Compress::compress', 'renamer::Renamer::rename_with_raw_names'])
         translation_rule(ctx, facts, cfg)
